@@ -172,6 +172,32 @@ impl Prop for C02Prop {
                 l.knobs.insert("crc_bruteforce".into(), 1);
                 v.push(Scenario::Link(l));
             }
+            // ... and in front of it a transmission that the caller abandons (reset / finalize) right
+            // behind its start sequence or a few bytes later: whatever the decoder still remembers of it
+            // (a running checksum, a length), one of the 65536 checksums will suit that memory
+            if i % 2 == 1 {
+                for variant in 0..3 {
+                    let extra = *rng.pick(&[0usize, 0, 0, 1, 3, 4, 5]);
+                    let op = *rng.pick(&[crate::fe::PushOp::Reset, crate::fe::PushOp::Finalize]);
+                    let mut q = crate::refenc::START.to_vec();
+                    q.extend((0..extra).map(|k| 0x31 + k as u8));
+                    let at = q.len();
+                    if variant < 2 {
+                        // a frame that is delivered for exactly one checksum: aligned data, no padding
+                        q.extend_from_slice(&crate::refenc::START);
+                        let k = 4 * rng.below(4);
+                        q.extend((0..k).map(|j| 0x41 + j as u8));
+                        q.extend_from_slice(&[0x1b, 0x1b, 0x1b, 0x1b, 0x1a, 0x00]);
+                    } else {
+                        q.extend_from_slice(&p);
+                    }
+                    let mut l = LinkScn::new("C02", "crc-bruteforce-after-abort", Fe::Push, BufKind::Vec);
+                    l.segs.push(Seg::Raw(crate::hexbytes::Hx(q)));
+                    l.ops = vec![(at, op)];
+                    l.knobs.insert("crc_bruteforce".into(), 1);
+                    v.push(Scenario::Link(l));
+                }
+            }
         }
         v
     }
@@ -345,7 +371,7 @@ fn exec_bruteforce(l: &LinkScn, st: &mut Stats) -> Outcome {
     for crc in 0..=0xffffu32 {
         stream[n - 2] = (crc & 0xff) as u8;
         stream[n - 1] = (crc >> 8) as u8;
-        let obs = fe::drive_push_kind(l.buf, &stream, &[], 0, true);
+        let obs = fe::drive_push_kind(l.buf, &stream, &l.ops, 0, true);
         if obs.iter().any(|o| matches!(o.item, Item::Msg(_))) {
             delivered += 1;
             if let Err(d) = check_sound(&stream, &obs, true) {
@@ -360,6 +386,9 @@ fn exec_bruteforce(l: &LinkScn, st: &mut Stats) -> Outcome {
         }
     }
     st.bump("probe", "crc-bruteforce-scenarios");
+    if !l.ops.is_empty() {
+        st.bump("probe", "crc-bruteforce-after-abort");
+    }
     st.add("probe", "crc-bruteforce-accepted", delivered);
     st.add("counters", "crc-bruteforce-decoder-runs", 65536);
     finish(st, &last_obs, violation, true, 65536 * stream.len() as u64)
